@@ -30,7 +30,8 @@ RULE = ("exhaustive: integer series x = sorted subsets of {0..7} (2..6 points qu
         " Round-5 classes: negative stop (Python slice semantics), pandas Series with absolute bounds."
         " Round-6 classes: a 'huge' kind (66 000..90 000 samples, all values different, bounds beyond sample 2**16, and - round 8 - a left bound strictly inside the gap in front of sample 2**16 / 2**15 / 50 000 / 60 000), abscissae in narrow signed integers spanning their type with ratio bounds."
         " Round-7 classes: truncation after resampling to the same number of points (same length and ends, other grid)."
-        " Round-9 classes: a 'threads' kind - ONE Weaver read by several threads (slice_by_value / slice_by_index / getters) and independent truncations; huge sizes also between 2**15 and 2**16.")
+        " Round-9 classes: a 'threads' kind - ONE Weaver read by several threads (slice_by_value / slice_by_index / getters) and independent truncations; huge sizes also between 2**15 and 2**16."
+        " Round-10 classes: int64 / uint64 epoch-nanosecond abscissae sampled below the float64 spacing, cut with float / integer bounds; float64 ticks beyond 2**53 held in a strided table column inside a Weaver, cut with exact integer bounds one tick beside a sample (working series and reference judged).")
 REQUIRED_MONITORS = ["threads:weaver_readers", "c11:truncate", "c11:weaver_truncate", "c11:slice_by_value", "c11:slice_by_index",
                      "c11:truncate_by_index"]
 ASSUMPTIONS = ["left < right; slicing values are samples of x; index bounds within 0..len (other inputs belong to C20)"]
